@@ -22,7 +22,8 @@ def ordered(x):
 
 # {{{ programs
 
-PROGRAMS = ("chain", "independent", "diamond", "reductions", "fan")
+PROGRAMS = ("chain", "independent", "diamond", "reductions", "fan",
+            "multi_reduction_lambda")
 
 def prog_outputs(kind):
     a = pt.make_placeholder("a", (4, 4), np.float64)
@@ -45,6 +46,29 @@ def prog_outputs(kind):
         # become schedulable at the same moment
         p, q, r = a + 1, b * 2, pt.sin(a)
         return {"t": p @ q + r, "q": q, "r": r, "p": p, "k": pt.sum(p)}
+    if kind == "multi_reduction_lambda":
+        # one index lambda holding several reductions (make_index_lambda)
+        import pymbolic.primitives as p
+        from constantdict import constantdict
+
+        from pytato.array import ReductionDescriptor, make_index_lambda
+        from pytato.reductions import SumReductionOperation
+        from pytato.scalar_expr import Reduce
+        u = pt.make_placeholder("u", (4,), np.float64)
+        v = pt.make_placeholder("v", (5,), np.float64)
+        w = pt.make_placeholder("w", (6,), np.float64)
+
+        def red(nm, var, n):
+            return Reduce(p.Subscript(p.Variable(nm), (p.Variable(var),)),
+                          SumReductionOperation(),
+                          constantdict({var: (0, n)}))
+        il = make_index_lambda(
+            red("u", "_r0", 4) + red("v", "_r1", 5) + red("w", "_r2", 6),
+            {"u": u, "v": v, "w": w}, (), np.float64,
+            var_to_reduction_descr={
+                k: ReductionDescriptor(frozenset())
+                for k in ("_r0", "_r1", "_r2")})
+        return {"o": il, "p": il * 2}
     if kind == "diamond":
         s = (a + b).tagged(pt.tags.ImplStored())
         l, r = pt.exp(s), pt.cos(s)      # noqa: E741
